@@ -638,15 +638,13 @@ package libinjection
 //@   loop 1 invariant -1 <= i && i < len(str) && 0 <= count && count <= len(str) - 1 - i
 //@   loop 1 decreases i + 1
 
-//@ spec hasDollar(a string) bool = exists k in [0, len(a)): a[k] == '$'
-//@ spec upSp(a string, j int) bool = up(a[j]) == 'S' && up(a[j+1]) == 'P' && a[j+2] == '_' && up(a[j+3]) == 'P' && up(a[j+4]) == 'A' && up(a[j+5]) == 'S' && up(a[j+6]) == 'S' &&
-//@      up(a[j+7]) == 'W' && up(a[j+8]) == 'O' && up(a[j+9]) == 'R' && up(a[j+10]) == 'D'
-//@ spec sameAt11(a string, b string, j int) bool = a[j] == b[j] && a[j+1] == b[j+1] && a[j+3] == b[j+3] && a[j+4] == b[j+4] && a[j+5] == b[j+5] && a[j+6] == b[j+6] && a[j+7] == b[j+7] &&
-//@      a[j+8] == b[j+8] && a[j+9] == b[j+9] && a[j+10] == b[j+10]
 //@ spec relInput(a string, b string) bool = (forall k in [0, len(a) - 1): (a[k] == '\\' || a[k] == '\'') ==> a[k+1] == b[k+1]) && (forall k in [0, len(a) - 1): a[k+1] == '\'' ==> a[k] == b[k])
-//@ spec dollarFixed(a string, b string) bool = hasDollar(a) ==> (forall j in [0, len(a)): a[j] == b[j])
-//@ spec spFixed(a string, b string) bool = forall j in [0, len(a) - 10): upSp(a, j) ==> sameAt11(a, b, j)
+//@ spec dollarFixed(a string, b string) bool = (exists k in [0, len(a)): a[k] == '$') ==> (forall j in [0, len(a)): a[j] == b[j])
+//@ spec spFixed(a string, b string) bool = forall j in [0, len(a) - 10): (up(a[j]) == 'S' && up(a[j+1]) == 'P' && a[j+2] == '_' && up(a[j+3]) == 'P' && up(a[j+4]) == 'A' && up(a[j+5]) == 'S' &&
+//@      up(a[j+6]) == 'S' && up(a[j+7]) == 'W' && up(a[j+8]) == 'O' && up(a[j+9]) == 'R' && up(a[j+10]) == 'D') ==> (a[j] == b[j] && a[j+1] == b[j+1] && a[j+3] == b[j+3] && a[j+4] == b[j+4] &&
+//@      a[j+5] == b[j+5] && a[j+6] == b[j+6] && a[j+7] == b[j+7] && a[j+8] == b[j+8] && a[j+9] == b[j+9] && a[j+10] == b[j+10])
 //@ relfield sqliState.input upeq relInput
+//@ relfield sqliState.fingerprint eq
 //@ spec caseClosed(a string) bool = forall k in [0, len(a)): (a[k] >= 'a' && a[k] <= 'z' ==> memberOf(a[k] - 32, a)) && (a[k] >= 'A' && a[k] <= 'Z' ==> memberOf(a[k] + 32, a))
 //@ func strLenSpn
 //@   rel eq accept
@@ -966,14 +964,17 @@ package libinjection
 //@      zeroT(s.tokenVec[4]) && zeroT(s.tokenVec[5]) && zeroT(s.tokenVec[6]) && zeroT(s.tokenVec[7])
 
 //@ func sqliInit
+//@   rel requires relInput(L(input), R(input))
 //@   modifies s.*, s.tokenVec[*].*
 //@   ensures  [C01 C05 C06 C12] @fullstate aliases(s.input, input) && freshState(s, flags)
 
 //@ func (*sqliState).reset
+//@   rel on
 //@   modifies s.*, s.tokenVec[*].*
 //@   ensures  [C01 C05 C06 C12] @fullstate aliases(s.input, old(s.input)) && freshState(s, flags)
 
 //@ func (*sqliState).tokenize
+//@   rel requires dollarFixed(L(s.input), R(s.input))
 //@   requires wfS(s) && statsOK(s)
 //@   modifies s.pos, s.statsTokens, s.statsCommentDDX, s.statsCommentHash, s.current.*
 //@   reveal   PLAINL(s.input)
@@ -992,6 +993,7 @@ package libinjection
 //@      c == sqliTokenTypeFunction || c == sqliTokenTypeExpression || c == sqliTokenTypeTSQL || c == sqliTokenTypeSQLType
 //@ spec mergeableB(c int) bool = mergeableA(c) || c == sqliTokenTypeLogicOperator
 //@ func (*sqliState).merge
+//@   rel on
 //@   requires wfT(tokenA) && wfT(tokenB)
 //@   modifies tokenA.category, tokenA.pos, tokenA.len, tokenA.val
 //@   ensures  wfT(tokenA) && tokenA.pos == old(tokenA.pos)
@@ -1033,6 +1035,7 @@ package libinjection
 //@ spec clsAt(s *sqliState, n int, i int) bool = i < n ==> inSigma(catAt(s, i)) && (catAt(s, i) == sqliTokenTypeComment ==> i == n - 1)
 //@ spec foldM1(s *sqliState, more bool) int = s.length - s.pos + (more ? 1 : 0)
 //@ func (*sqliState).fold
+//@   rel requires dollarFixed(L(s.input), R(s.input))
 //@   requires wfS(s) && statsOK(s) && 0 <= s.statsFolds && s.statsFolds <= s.statsTokens
 //@   modifies s.pos, s.current, s.statsTokens, s.statsFolds, s.statsCommentDDX, s.statsCommentHash, s.tokenVec[*].*
 //@   ensures  wfS(s) && statsOK(s) && aliases(s.input, old(s.input)) && s.length == old(s.length) && s.flags == old(s.flags)
@@ -1074,6 +1077,7 @@ package libinjection
 //@ spec order2(s *sqliState) bool = s.statsFolds == 0 && len(s.fingerprint) == 2 && catAt(s, 1) == sqliTokenTypeComment ==>
 //@      tokEnd(s, 0) <= s.tokenVec[1].pos && tokEnd(s, 1) <= s.length
 //@ func (*sqliState).sqliFingerprint
+//@   rel requires dollarFixed(L(s.input), R(s.input))
 //@   modifies s.*, s.tokenVec[*].*
 //@   ensures  wfS0(s) && statsOK(s) && aliases(s.input, old(s.input)) && s.length == len(s.input) && s.flags == (flags == 0 ? 9 : flags)
 //@   ensures  [C01 C08 C06] @length len(s.fingerprint) <= 5 && aliases(result, s.fingerprint)
@@ -1093,6 +1097,7 @@ package libinjection
 //@                 (forall j in [0, i): fp[j] == sqliTokenTypeBareWord || fp[j] == sqliTokenTypeNumber)
 
 //@ func (*sqliState).blacklist
+//@   rel requires spFixed(L(s.input), R(s.input))
 //@   requires len(s.fingerprint) == 2 ==> s.fingerprint[0] < 128 && s.fingerprint[1] < 128
 //@   modifies nothing
 //@   ensures  [C01 C08] @nonempty result ==> len(s.fingerprint) >= 1
@@ -1128,6 +1133,7 @@ package libinjection
 //@ spec wlTable(s *sqliState) bool = (len(s.fingerprint) > 1 && s.fingerprint[len(s.fingerprint) - 1] == sqliTokenTypeComment && hasSpPassword(s.input)) ||
 //@      (len(s.fingerprint) == 2 ? wl2(s) : (len(s.fingerprint) == 3 ? wl3(s) : true))
 //@ func (*sqliState).notWhitelist
+//@   rel requires spFixed(L(s.input), R(s.input))
 //@   requires s.length == len(s.input)
 //@   requires len(s.fingerprint) == 2 ==> wfT(s.tokenVec[0]) && wfT(s.tokenVec[1]) && s.fingerprint[1] == catAt(s, 1) &&
 //@            (s.fingerprint[1] == sqliTokenTypeUnion || s.fingerprint[1] == sqliTokenTypeComment) &&
@@ -1152,6 +1158,7 @@ package libinjection
 //@ spec cascFP(in string, fp string) bool = (casc1(in) ==> aliases(fp, FP(in, 9))) && (casc2(in) ==> aliases(fp, FP(in, 17))) && (casc3(in) ==> aliases(fp, FP(in, 10))) &&
 //@      (casc4(in) ==> aliases(fp, FP(in, 18))) && (casc5(in) ==> aliases(fp, FP(in, 20)))
 //@ func (*sqliState).check
+//@   rel requires dollarFixed(L(s.input), R(s.input)) && spFixed(L(s.input), R(s.input))
 //@   requires s.length == len(s.input)
 //@   modifies s.*, s.tokenVec[*].*
 //@   reveal   PLAINL(s.input)
@@ -1162,6 +1169,8 @@ package libinjection
 //@   ensures  [C14] @plain PLAIN(old(s.input)) ==> !result
 
 //@ func IsSQLi
+//@   rel requires relInput(L(input), R(input)) && dollarFixed(L(input), R(input)) && spFixed(L(input), R(input))
+//@   rel eq result1
 //@   modifies nothing
 //@   ensures  [C08] @consistent (result0 ==> 1 <= len(result1) && len(result1) <= 5) && (!result0 ==> len(result1) == 0)
 //@   ensures  [C08] @alphabet result0 ==> forall i in [0, len(result1)): inSigma(result1[i]) && (result1[i] == sqliTokenTypeComment ==> i == len(result1) - 1)
